@@ -135,6 +135,10 @@ func init() {
 		r.verifyLayerP(ld, "C12")
 		// (b)
 		r.checkStructure(ld, "z80.(*CPU).Step")
+		// "Run returns once its program halts": in the iteration in which the halted
+		// indication is found set Run returns; Run itself does nothing but call Step
+		r.structural(ld, "Run/halt/returns", ld.runHaltReturns(), "")
+		r.structural(ld, "Run/footprint", ld.runFootprint(), "")
 		r.Assumptions["C12: user-supplied Memory/IO/handler methods and package log terminate and do not panic"] = true
 		r.Assumptions["C12: totality of mode 0 when the overlay is inactive or Data is shorter than the opcode is compositional: executeOne is panic-free for every total Memory, im0data.Get/Set are total under the invariant newIm0data establishes"] = true
 		r.Assumptions["C12: stack exhaustion / out-of-memory are not modelled; termination of Run for a given program is the halting problem (C08 proves: Run returns in the iteration that executes HALT)"] = true
